@@ -268,6 +268,35 @@ func checkC12(P *Prog, r *Result) {
 		}
 	}
 	r.floor("C12/posttransform-shape", 6)
+	// how a callback's error becomes an issue: the error itself if it is a *ZogIssue, else a fresh issue at the
+	// node's path wrapping exactly that error
+	if fn := P.fn("(*zog/internals.SchemaCtx).IssueFromUnknownError"); fn != nil {
+		r.sawFunc(fname(fn))
+		sh := P.predicateShape(fn)
+		var rows []string
+		for _, p := range sh.paths {
+			var conds []string
+			for _, a := range p.conds {
+				if strings.Contains(a, ".Dtype ") {
+					continue // filling in a missing type does not change which issue is returned
+				}
+				conds = append(conds, a)
+			}
+			rows = append(rows, strings.Join(conds, " ∧ ")+" ⇒ "+p.ret)
+		}
+		rows = uniqSorted(rows)
+		want := []string{
+			"!ok(ctx.(*zog/internals.ZogIssue)) ⇒ (*zog/internals.ZogIssue).SetError((*zog/internals.SchemaCtx).Issue(val), ctx)",
+			"ok(ctx.(*zog/internals.ZogIssue)) ⇒ ctx.(*zog/internals.ZogIssue)",
+		}
+		if strings.Join(rows, "\n") == strings.Join(want, "\n") && len(sh.problems) == 0 {
+			r.ok("C12/unknown-error-shape", fname(fn), P.pos(fn.Pos()), "err.(*ZogIssue) ? that issue : ctx.Issue().SetError(err)")
+		} else {
+			r.bad("C12/unknown-error-shape", fname(fn), P.pos(fn.Pos()), "a callback's error is not reported as (the returned *ZogIssue itself | a fresh issue at the node's path wrapping exactly that error)", append([]string{"found:"}, rows...)...)
+		}
+	} else {
+		r.broken("anchor IssueFromUnknownError not found")
+	}
 
 	// ---- preprocess-skip ----
 	ca := P.newCatchAnalysis()
